@@ -57,8 +57,14 @@ type WorldCfg struct {
 	Summary       time.Duration `json:"summary"`
 	NCSMode       string        `json:"ncs_mode,omitempty"` // up | slow | hang | refuse
 	NoAuth        bool          `json:"no_auth,omitempty"`
-	Trace         bool          `json:"-"`
-	MaxSteps      uint64        `json:"max_steps,omitempty"`
+	// client clock fault: the timestamps connections write into their messages are off from the
+	// server's clock. "const": by SkewBase seconds; "saw": additionally stepping backwards two
+	// seconds per request, three times out of four; "jumpback": set back by an hour after the
+	// fourth request. Even connections only, so that skewed and unskewed clients share sessions.
+	Skew     string `json:"skew,omitempty"`
+	SkewBase int64  `json:"skew_base,omitempty"`
+	Trace    bool   `json:"-"`
+	MaxSteps uint64 `json:"max_steps,omitempty"`
 }
 
 const serverKeyHex = "59c6995e998f97a5a0044966f0945389dc9e86dae88c7a8412f4603b6b78690d"
